@@ -437,6 +437,58 @@ const ENUM_TEMPLATES: [(&str, bool, &str); 44] = [
     ("enum-std-many-errors", true, "let list = import! std.list\nlet a = list.zqx\nlet b = 1 + \"a\"\nlet c = nope1\nlet d = show (\\x -> x)\n{ a, b, c, d }"),
 ];
 
+/// Records with the SAME field names in DIFFERENT orders across programs, read BY NAME
+/// (row-polymorphic getters -> GetField, record patterns, host-side `lookup_field`): the run-time
+/// record shape (vm/src/gc.rs Gc::get_type_info) is shared state of a VM, so the value of a later
+/// program must not depend on which order an earlier program used.  Seed independent, prelude off,
+/// always `run_expr`; the sequential histories see them in this order, `rev` in the opposite one.
+const SHAPE_TEMPLATES: [(&str, &str); 44] = [
+    ("shape-xy", "let r = { x = 1, y = 2 }\nlet get_x r = r.x\nlet get_y r = r.y\n{ x = get_x r, y = get_y r, sum = get_x r #Int+ get_y r }"),
+    ("shape-yx", "let r = { y = 30, x = 4 }\nlet get_x r = r.x\nlet get_y r = r.y\n{ x = get_x r, y = get_y r, sum = get_x r #Int+ get_y r }"),
+    ("shape-xy-tuple", "let r = { x = 5, y = 6 }\nlet get_x r = r.x\nlet get_y r = r.y\n(get_x r, get_y r)"),
+    ("shape-yx-tuple", "let r = { y = 7, x = 8 }\nlet get_x r = r.x\nlet get_y r = r.y\n(get_x r, get_y r)"),
+    ("shape-xy-first-only", "let r = { x = 11, y = 12 }\nlet get_x r = r.x\nget_x r"),
+    ("shape-yx-first-only", "let r = { y = 13, x = 14 }\nlet get_x r = r.x\nget_x r"),
+    ("shape-xy-host", "{ x = 21, y = 22 }"),
+    ("shape-yx-host", "{ y = 23, x = 24 }"),
+    ("shape-xy-strings", "let r = { x = \"ex\", y = \"why\" }\nlet get_x r = r.x\nlet get_y r = r.y\n(get_y r, get_x r)"),
+    ("shape-yx-strings", "let r = { y = \"why\", x = \"ex\" }\nlet get_x r = r.x\nlet get_y r = r.y\n(get_y r, get_x r)"),
+    ("shape-3-abc", "let r = { a = 1, b = 20, c = 300 }\nlet get_a r = r.a\nlet get_b r = r.b\nlet get_c r = r.c\n(get_a r, get_b r, get_c r)"),
+    ("shape-3-acb", "let r = { a = 2, c = 301, b = 21 }\nlet get_a r = r.a\nlet get_b r = r.b\nlet get_c r = r.c\n(get_a r, get_b r, get_c r)"),
+    ("shape-3-bac", "let r = { b = 22, a = 3, c = 302 }\nlet get_a r = r.a\nlet get_b r = r.b\nlet get_c r = r.c\n(get_a r, get_b r, get_c r)"),
+    ("shape-3-bca", "let r = { b = 23, c = 303, a = 4 }\nlet get_a r = r.a\nlet get_b r = r.b\nlet get_c r = r.c\n(get_a r, get_b r, get_c r)"),
+    ("shape-3-cab", "let r = { c = 304, a = 5, b = 24 }\nlet get_a r = r.a\nlet get_b r = r.b\nlet get_c r = r.c\n(get_a r, get_b r, get_c r)"),
+    ("shape-3-cba", "let r = { c = 305, b = 25, a = 6 }\nlet get_a r = r.a\nlet get_b r = r.b\nlet get_c r = r.c\n(get_a r, get_b r, get_c r)"),
+    ("shape-4-abcd", "let r = { a = 10, b = 20, c = 30, d = 40 }\nlet g_a r = r.a\nlet g_b r = r.b\nlet g_c r = r.c\nlet g_d r = r.d\n(g_a r, g_b r, g_c r, g_d r)"),
+    ("shape-4-dcba", "let r = { d = 41, c = 31, b = 21, a = 11 }\nlet g_a r = r.a\nlet g_b r = r.b\nlet g_c r = r.c\nlet g_d r = r.d\n(g_a r, g_b r, g_c r, g_d r)"),
+    ("shape-4-badc", "let r = { b = 22, a = 12, d = 42, c = 32 }\nlet g_a r = r.a\nlet g_b r = r.b\nlet g_c r = r.c\nlet g_d r = r.d\n(g_a r, g_b r, g_c r, g_d r)"),
+    ("shape-4-cdab", "let r = { c = 33, d = 43, a = 13, b = 23 }\nlet g_a r = r.a\nlet g_b r = r.b\nlet g_c r = r.c\nlet g_d r = r.d\n(g_a r, g_b r, g_c r, g_d r)"),
+    ("shape-4-bcda", "let r = { b = 24, c = 34, d = 44, a = 14 }\nlet g_a r = r.a\nlet g_b r = r.b\nlet g_c r = r.c\nlet g_d r = r.d\n(g_a r, g_b r, g_c r, g_d r)"),
+    ("shape-5-abcde", "let r = { a = 100, b = 200, c = 300, d = 400, e = 500 }\nlet g_a r = r.a\nlet g_e r = r.e\nlet g_c r = r.c\n{ a = g_a r, c = g_c r, e = g_e r }"),
+    ("shape-5-edcba", "let r = { e = 501, d = 401, c = 301, b = 201, a = 101 }\nlet g_a r = r.a\nlet g_e r = r.e\nlet g_c r = r.c\n{ a = g_a r, c = g_c r, e = g_e r }"),
+    ("shape-5-bacde", "let r = { b = 202, a = 102, c = 302, d = 402, e = 502 }\nlet g_a r = r.a\nlet g_e r = r.e\nlet g_c r = r.c\n{ a = g_a r, c = g_c r, e = g_e r }"),
+    ("shape-5-cdeab", "let r = { c = 303, d = 403, e = 503, a = 103, b = 203 }\nlet g_a r = r.a\nlet g_e r = r.e\nlet g_c r = r.c\n{ a = g_a r, c = g_c r, e = g_e r }"),
+    ("shape-5-aebdc", "let r = { a = 104, e = 504, b = 204, d = 404, c = 304 }\nlet g_a r = r.a\nlet g_e r = r.e\nlet g_c r = r.c\n{ a = g_a r, c = g_c r, e = g_e r }"),
+    ("shape-nested-xy", "let r = { inner = { x = 1, y = 2 }, k = 3 }\nlet get r = r.inner.x\nlet get2 r = r.inner.y\n(get r, get2 r, r.k)"),
+    ("shape-nested-yx", "let r = { k = 3, inner = { y = 2, x = 1 } }\nlet get r = r.inner.x\nlet get2 r = r.inner.y\nlet getk r = r.k\n(get r, get2 r, getk r)"),
+    ("shape-fn-xy", "let mk a b = { x = a, y = b }\nlet get_x r = r.x\nlet get_y r = r.y\nlet r = mk 41 42\n(get_x r, get_y r)"),
+    ("shape-fn-yx", "let mk a b = { y = b, x = a }\nlet get_x r = r.x\nlet get_y r = r.y\nlet r = mk 43 44\n(get_x r, get_y r)"),
+    ("shape-fn-poly-xy", "let mk a b = { x = a, y = b }\nlet get_x r = r.x\nlet get_y r = r.y\n(get_x (mk 1 \"s\"), get_y (mk \"t\" 2))"),
+    ("shape-fn-poly-yx", "let mk a b = { y = b, x = a }\nlet get_x r = r.x\nlet get_y r = r.y\n(get_x (mk 1 \"s\"), get_y (mk \"t\" 2))"),
+    ("shape-update-xy", "let base = { x = 1, y = 2 }\nlet r = { x = 10, .. base }\nlet get_x r = r.x\nlet get_y r = r.y\n(get_x r, get_y r)"),
+    ("shape-update-yx", "let base = { y = 2, x = 1 }\nlet r = { x = 10, .. base }\nlet get_x r = r.x\nlet get_y r = r.y\n(get_x r, get_y r)"),
+    ("shape-update-add-xy", "let base = { y = 2 }\nlet r = { x = 10, .. base }\nlet get_x r = r.x\nlet get_y r = r.y\n(get_x r, get_y r)"),
+    ("shape-update-add-yx", "let base = { x = 2 }\nlet r = { y = 10, .. base }\nlet get_x r = r.x\nlet get_y r = r.y\n(get_x r, get_y r)"),
+    ("shape-pat-xy", "let r = { x = 51, y = 52 }\nlet f r =\n    let { x } = r\n    x\nlet g r =\n    match r with\n    | { y } -> y\n(f r, g r)"),
+    ("shape-pat-yx", "let r = { y = 53, x = 54 }\nlet f r =\n    let { x } = r\n    x\nlet g r =\n    match r with\n    | { y } -> y\n(f r, g r)"),
+    ("shape-pat-direct-xy", "match { x = 61, y = 62 } with\n| { x, y } -> x #Int- y"),
+    ("shape-pat-direct-yx", "match { y = 63, x = 64 } with\n| { x, y } -> x #Int- y"),
+    ("shape-variant-xy", "type Opt a = | None | Some a\nlet get_x r = r.x\nmatch Some { x = 71, y = 72 } with\n| Some r -> get_x r\n| None -> 0"),
+    ("shape-variant-yx", "type Opt a = | None | Some a\nlet get_x r = r.x\nmatch Some { y = 73, x = 74 } with\n| Some r -> get_x r\n| None -> 0"),
+    ("shape-both-in-one", "let a = { x = 81, y = 82 }\nlet b = { y = 83, x = 84 }\nlet get_x r = r.x\nlet get_y r = r.y\n(get_x a, get_y a, get_x b, get_y b)"),
+    ("shape-both-in-one-rev", "let b = { y = 83, x = 84 }\nlet a = { x = 81, y = 82 }\nlet get_x r = r.x\nlet get_y r = r.y\n(get_x a, get_y a, get_x b, get_y b)"),
+];
+
 /// Programs whose reported type is polymorphic (prelude off).
 const POLY_TEMPLATES: [(&str, &str); 28] = [
     ("poly-id", "\\x -> x"),
@@ -529,6 +581,10 @@ fn generate_inputs(seed: u64, n_total: usize, n_std: usize) -> Generated {
         // the type checker's message is the subject: mostly `run_expr`, a third `typecheck_str`
         let kind = if rng.below(3) == 0 { Kind::Tc } else { Kind::Run };
         push(&mut inputs, &mut hist, g, kind, *prelude, t.to_string(), &mut rng);
+    }
+    // same field names in different orders, read by name (seed independent, always all of them)
+    for (g, t) in SHAPE_TEMPLATES.iter() {
+        push(&mut inputs, &mut hist, g, Kind::Run, false, t.to_string(), &mut rng);
     }
     // polymorphic-type programs and standard library programs
     for (g, t) in POLY_TEMPLATES.iter() {
@@ -703,7 +759,26 @@ fn observe(vm: &RootedThread, inp: &Input) -> Obs {
     let r = std::panic::catch_unwind(std::panic::AssertUnwindSafe(|| match inp.kind {
         Kind::Run => match vm.run_expr::<OpaqueValue<RootedThread, Hole>>(&inp.name, &inp.src) {
             Ok((v, ty)) => {
-                let val = mg::value::canon(vm, v.get_variant());
+                let mut val = mg::value::canon(vm, v.get_variant());
+                // a record result is ALSO read field by field from the host side, by name
+                // (`Data::lookup_field`, what the marshalling API of an embedder does)
+                {
+                    use gluon::base::types::TypeExt;
+                    use gluon::vm::api::ValueRef;
+                    if let ValueRef::Data(d) = v.get_variant().as_ref() {
+                        let mut by_name = String::new();
+                        for f in ty.remove_forall().row_iter() {
+                            let name = f.name.declared_name();
+                            match d.lookup_field(vm, name) {
+                                Some(x) => by_name.push_str(&format!(" ({} {})", name, mg::value::canon(vm, x))),
+                                None => by_name.push_str(&format!(" ({} <absent>)", name)),
+                            }
+                        }
+                        if !by_name.is_empty() {
+                            val.push_str(&format!(" (by-name{})", by_name));
+                        }
+                    }
+                }
                 let log = mg::run::log_take();
                 Obs { value: format!("(val {} {})", val, log_str(&log)), ty: format!("{}", ty), diag: String::new(), display: String::new(), rerender: String::new() }
             }
@@ -1591,7 +1666,7 @@ fn real_main() {
     }
     let t0 = Instant::now();
     let thorough = args.thorough();
-    let n_total: usize = args.extra.get("n").and_then(|s| s.parse().ok()).unwrap_or(if thorough { 5000 } else { 320 });
+    let n_total: usize = args.extra.get("n").and_then(|s| s.parse().ok()).unwrap_or(if thorough { 5000 } else { 400 });
     let n_std: usize = args.extra.get("std").and_then(|s| s.parse().ok()).unwrap_or(if thorough { 240 } else { 24 });
     let batch_size: usize = args.extra.get("batch").and_then(|s| s.parse().ok()).unwrap_or(if thorough { 500 } else { 400 });
     let workers: usize = args.extra.get("workers").and_then(|s| s.parse().ok()).unwrap_or(8);
